@@ -1,5 +1,5 @@
 (* driver for the extracted C15 model: one case per line on stdin
-     <k:0|1|2> <nm:K|U> <ym:U|P> <p:a|s|m> <c:e|m> <src:-|pc> dt y m d hh mm ss us <off|N>
+     <k:0|1|2> <nm:K|U> <ym:U|P> <p:a|s|m> <c:e|m> <lose:L|-> <src:-|pc> dt y m d hh mm ss us <off|N>
      ...                                                      date y m d
      ...                                                      str <code points, comma separated, or ->
    one result line per case, same text as the vm_compute route *)
@@ -31,11 +31,11 @@ let () =
       let line = input_line stdin in
       (try
          match String.split_on_char ' ' line with
-         | k :: nm :: ym :: p :: c :: src :: rest ->
+         | k :: nm :: ym :: p :: c :: lose :: src :: rest ->
            let src' = if src = "-" then None
              else Some (prec (String.sub src 0 1), cons (String.sub src 1 1)) in
            let r = c15_case (nat_of_int (int_of_string k)) (if nm = "K" then NaiveKept else NaiveUtc)
-               (if ym = "U" then Unpadded else Pad4) (prec p) (cons c) src' (input_of rest) in
+               (if ym = "U" then Unpadded else Pad4) (prec p) (cons c) (lose = "L") src' (input_of rest) in
            print_endline (string_of_chars r)
          | _ -> print_endline "BADLINE"
        with Failure m -> print_endline ("BADLINE " ^ m))
